@@ -27,11 +27,17 @@ UpdateSecs == {"modify", "delete"}
 (*   history entry    [v, vis, m]                                            *)
 (*   history          [k, id, fail, vs]    fail = the datasource fails with  *)
 (*                                         an error that is not "not found"  *)
-(*   case             [ign, nile, ch, hist]                                  *)
+(*   case             [ign, opt, idp, nile, ch, hist]                        *)
 (*        ch[section][kind] = sequence of change elements                    *)
 (*        hist              = sequence of histories; a (k, id) without entry *)
 (*                            has no history at all ("missing entirely")     *)
 (*        nile              = render sections without elements as nil        *)
+(*        ign               = IgnoreMissingChildren(true) is passed          *)
+(*        opt               = every other option setting annotate.Option     *)
+(*                            offers (see OptSets); the Model - like the     *)
+(*                            code - and the Judge never read it             *)
+(*        idp               = name of the id symbol table the renderer uses  *)
+(*                            (abstract id -> concrete id; see IdProfiles)   *)
 (*   output element   [k, id, v, vis, m]                                     *)
 (*   action           [t, osm, old, new]   each of osm/old/new the sequence  *)
 (*                                         of output elements in that part   *)
@@ -69,19 +75,22 @@ ScanFrom(vs, ver, i, loc, max) ==
   ELSE IF vs[i].v < ver /\ vs[i].v > max THEN ScanFrom(vs, ver, i + 1, i, vs[i].v)
   ELSE ScanFrom(vs, ver, i + 1, loc, max)
 
+\* `ignoreMissing := computeOpts.IgnoreMissingChildren`: the only option Change consults
+IgnoreMissing(c) == c.ign
+
 \* findPrevious{Node,Way,Relation}: [old |-> << >> or <<entry>>, err]
 FindPrevious(c, k, el) ==
   LET h == DsHistory(c, k, el.id) IN
   IF h.err # "nil" THEN [old |-> << >>, err |-> h.err]
   ELSE LET loc == ScanFrom(h.vs, el.v, 1, 0, -1) IN
        IF loc = 0
-       THEN (IF c.ign THEN [old |-> << >>, err |-> "nil"] ELSE [old |-> << >>, err |-> "NoVisibleChildError"])
+       THEN (IF IgnoreMissing(c) THEN [old |-> << >>, err |-> "nil"] ELSE [old |-> << >>, err |-> "NoVisibleChildError"])
        ELSE [old |-> <<h.vs[loc]>>, err |-> "nil"]
 
 \* checkErr: what the caller returns for the error of findPrevious ("nil" = go on)
 CheckErr(c, err) ==
   IF err = "nil" THEN "nil"
-  ELSE IF err = "notfound" THEN (IF c.ign THEN "nil" ELSE "NoVisibleChildError")
+  ELSE IF err = "notfound" THEN (IF IgnoreMissing(c) THEN "nil" ELSE "NoVisibleChildError")
   ELSE err
 
 \* positions of the three nested loops: <<section index, kind index, element index>>; <<4, 1, 1>> = past the end
@@ -202,6 +211,11 @@ DiffOK(c, actions) ==
   /\ Len(actions) = NumEls(c)
   /\ \A s \in {"create", "modify", "delete"}, k \in KindSet : CellOK(c, s, k, actions)
 
+\* "... is reported as the documented typed error, or turns the action into a create when missing children are
+\* ignored": of all option settings only IgnoreMissingChildren (c.ign) may change the outcome.  JudgeOK and Expected
+\* read c.ign and never c.opt (IgnoreInconsistency, Threshold, ChildFilter, an explicit IgnoreMissingChildren(false)),
+\* nor c.idp (which concrete ids stand for the abstract ones): the same observation is demanded for every option set
+\* and every id table.
 JudgeOK(c, g) ==
   IF TouchesFailure(c) THEN TRUE
   ELSE IF ErrorDue(c)
@@ -246,6 +260,22 @@ CONSTANTS HMax,      \* Singles: stored version sets are the subsets of 1 .. HMa
           StaticInit \* model checking starts from the static families and NRandom random draws (TRUE) or only from
                      \* the generating machine (FALSE); lets the two halves run as separate TLC processes
 
+\* every setting of the options of package annotate besides IgnoreMissingChildren(true) (= c.ign):
+\*   inc  IgnoreInconsistency absent / (false) / (true);  thr  Threshold(d) absent / present;
+\*   cf   ChildFilter absent / accept-all / accept-none;  ignx an explicit IgnoreMissingChildren(false) in front
+OptSets == [inc : {"absent", "off", "on"}, thr : BOOLEAN, cf : {"absent", "all", "none"}, ignx : BOOLEAN]
+NoOpt   == [inc |-> "absent", thr |-> FALSE, cf |-> "absent", ignx |-> FALSE]
+OptSeq  == SetToSeq(OptSets)
+OptAt(n) == OptSeq[(n % Len(OptSeq)) + 1]
+
+\* id symbol tables of the renderer (abstract 1, 2, 3 -> concrete):
+\*   base  base+1, base+2, base+3 (base chosen by the seed: 0, 4e9, 2^40-1002)
+\*   zero  0, 5, 9      zero2  5, 0, 9      zero3  5, 9, 0      big  2^40-1, 0, 2^39
+\*   neg   -1, 0, -1000000   (a negative id cannot be named by an osm.FeatureID, so this table is only combined
+\*                            with ign = TRUE, where no typed error is due)
+IdProfiles == <<"base", "zero", "zero2", "zero3", "big">>
+ProfAt(n)  == IdProfiles[(n % Len(IdProfiles)) + 1]
+
 \* the input flag that the code has to overwrite
 AdvVis(s) == s = "delete"
 
@@ -263,14 +293,16 @@ Singles ==
   LET VisOf(s)   == IF BothVis THEN BOOLEAN ELSE {AdvVis(s)}
       HistsOf(s) == IF s = "create" THEN {<< >>, <<2, 1>>, <<1, 2, 3, 4>>} ELSE HistSeqs(1 .. HMax) IN
   UNION {
-    {[ign |-> ign, nile |-> (v % 2 = 0), hist |-> <<MkHist(k, 1, h, 100)>>,
+    {[ign |-> ign, nile |-> (v % 2 = 0), opt |-> OptAt(7 * v + 5 * Len(h) + KindIdx(k)), idp |-> ProfAt(v + Len(h)),
+      hist |-> <<MkHist(k, 1, h, 100)>>,
       ch |-> OneEl(s, k, [id |-> 1, v |-> v, vis |-> vi, m |-> CellMark(s, k) + 1])] :
          h \in HistsOf(s), vi \in VisOf(s), ign \in BOOLEAN}
     \cup
-    {[ign |-> ign, nile |-> (v % 2 = 0), hist |-> << >>,      \* no history at all
+    {[ign |-> ign, nile |-> (v % 2 = 0), opt |-> OptAt(v + KindIdx(k)), idp |-> ProfAt(v), hist |-> << >>,      \* no history at all
       ch |-> OneEl(s, k, [id |-> 1, v |-> v, vis |-> vi, m |-> CellMark(s, k) + 1])] : vi \in VisOf(s), ign \in BOOLEAN}
     \cup
-    {[ign |-> ign, nile |-> (v % 2 = 0), hist |-> <<MkHist(k, 2, <<1, 2, 3>>, 100)>>,   \* only another element's history
+    {[ign |-> ign, nile |-> (v % 2 = 0), opt |-> OptAt(3 * v + KindIdx(k)), idp |-> ProfAt(v + 1),
+      hist |-> <<MkHist(k, 2, <<1, 2, 3>>, 100)>>,   \* only another element's history
       ch |-> OneEl(s, k, [id |-> 1, v |-> v, vis |-> vi, m |-> CellMark(s, k) + 1])] : vi \in VisOf(s), ign \in BOOLEAN}
     : s \in {"create", "modify", "delete"}, k \in SingleKinds, v \in 1 .. 4}
 
@@ -294,7 +326,7 @@ AddEl(ch, s, k, id, v) ==
 
 \* --- Pairs: two elements in every pair of cells (also the same cell), every combination of shapes ------------
 Pairs ==
-  {[ign |-> ign, nile |-> FALSE, hist |-> WorldHist,
+  {[ign |-> ign, nile |-> FALSE, opt |-> NoOpt, idp |-> "base", hist |-> WorldHist,
     ch |-> AddEl(AddEl(NoChange, CellList[ab[1]][1], CellList[ab[1]][2], e1[1], e1[2]),
                  CellList[ab[2]][1], CellList[ab[2]][2], e2[1], e2[2])] :
       ab \in {x \in (1 .. 9) \X (1 .. 9) : x[1] <= x[2]},
@@ -312,13 +344,31 @@ Picks == { [j \in 1 .. 9 |-> <<1, 3>>], [j \in 1 .. 9 |-> <<3, 2>>], [j \in 1 ..
            [j \in 1 .. 9 |-> <<1 + 2 * (j % 2), 3>>], [j \in 1 .. 9 |-> <<1, 1 + (j % 4)>>],
            [j \in 1 .. 9 |-> <<1 + (j % 3), 2 + (j % 2)>>], [j \in 1 .. 9 |-> <<2, 2>>] }
 Houses ==
-  {[ign |-> ign, nile |-> FALSE, hist |-> WorldHist, ch |-> Fill(NoChange, 1, n, p)] : n \in {1, 2}, p \in Picks, ign \in BOOLEAN}
+  {[ign |-> ign, nile |-> FALSE, opt |-> o, idp |-> ip, hist |-> WorldHist, ch |-> Fill(NoChange, 1, n, p)] :
+      n \in {1, 2}, p \in Picks, ign \in BOOLEAN, o \in {NoOpt, [NoOpt EXCEPT !.inc = "on", !.thr = TRUE, !.cf = "none"]},
+      ip \in {"base", "zero", "zero3"}}
 
 \* --- Failing: datasource errors other than not-found, alone and next to missing / fine elements ---------------
 Failing ==
-  {[ign |-> ign, nile |-> FALSE, hist |-> World2Hist,
+  {[ign |-> ign, nile |-> FALSE, opt |-> NoOpt, idp |-> "base", hist |-> World2Hist,
     ch |-> AddEl(AddEl(NoChange, CellList[a][1], CellList[a][2], e1[1], e1[2]), CellList[b][1], CellList[b][2], e2[1], e2[2])] :
       a \in {1, 4, 5, 7}, b \in {4, 6, 7, 9}, e1 \in {<<1, 2>>, <<2, 3>>}, e2 \in {<<1, 3>>, <<3, 2>>, <<2, 1>>}, ign \in BOOLEAN}
+
+\* --- Optioned: every option set x one modified/deleted element that lacks / has its predecessor ----------------
+\* (<<1, 2>> history without earlier version, <<2, 3>> no history at all, <<1, 3>> predecessor present)
+Optioned ==
+  {[ign |-> ign, nile |-> FALSE, opt |-> o, idp |-> "base", hist |-> WorldHist,
+    ch |-> AddEl(NoChange, s, k, e[1], e[2])] :
+      o \in OptSets, s \in UpdateSecs, k \in KindSet, e \in {<<1, 2>>, <<2, 3>>, <<1, 3>>}, ign \in BOOLEAN}
+
+\* --- IdTables: concrete id 0 / a large id / negative ids for each kind, as first and as later element -----------
+\* two modified/deleted elements in every pair of update cells (also the same cell) over the id tables; version 3 has
+\* a predecessor for ids 1 and 3 and none for id 2 in WorldHist
+IdTables ==
+  {[ign |-> pi[2], nile |-> FALSE, opt |-> NoOpt, idp |-> pi[1], hist |-> WorldHist,
+    ch |-> AddEl(AddEl(NoChange, CellList[ab[1]][1], CellList[ab[1]][2], i1, 3), CellList[ab[2]][1], CellList[ab[2]][2], i2, 3)] :
+      ab \in {x \in (4 .. 9) \X (4 .. 9) : x[1] <= x[2]}, i1 \in 1 .. 3, i2 \in 1 .. 3,
+      pi \in ({"zero", "zero2", "zero3", "big"} \X BOOLEAN) \cup {<<"neg", TRUE>>}}
 
 \* --- Random: draws from the full product space of the property's quantifier ---------------------------------
 \* (<= 2 elements per cell, ids 1 .. 2, versions 1 .. 4, per (kind, id) no history or any stored order of any
@@ -342,7 +392,7 @@ HistOf(d, k, id, base, bias) ==
   ELSE IF d[1] = 1 THEN << >> ELSE <<MkHist(k, id, d[2], base)>>
 RandCase(n) ==
   CHOOSE c \in
-    {[ign |-> o[1], nile |-> o[2],
+    {[ign |-> o[1], nile |-> o[2], opt |-> o[4], idp |-> (IF o[5] = "neg" /\ ~o[1] THEN "base" ELSE o[5]),
       hist |-> HistOf(h[1], "node", 1, 100, o[3]) \o HistOf(h[2], "node", 2, 200, o[3]) \o HistOf(h[3], "way", 1, 300, o[3]) \o
                HistOf(h[4], "way", 2, 400, o[3]) \o HistOf(h[5], "relation", 1, 500, o[3]) \o HistOf(h[6], "relation", 2, 600, o[3]),
       ch |-> [create |-> [node |-> CellOf(d[1], "create", "node", o[3]), way |-> CellOf(d[2], "create", "way", o[3]),
@@ -351,12 +401,13 @@ RandCase(n) ==
                           relation |-> CellOf(d[6], "modify", "relation", o[3])],
               delete |-> [node |-> CellOf(d[7], "delete", "node", o[3]), way |-> CellOf(d[8], "delete", "way", o[3]),
                           relation |-> CellOf(d[9], "delete", "relation", o[3])]]] :
-        o \in {<<RandomElement(BOOLEAN), RandomElement(BOOLEAN), RandomElement(1 .. 3) = 1>>},
+        o \in {<<RandomElement(BOOLEAN), RandomElement(BOOLEAN), RandomElement(1 .. 3) = 1, RandomElement(OptSets),
+                 RandomElement({"base", "zero", "zero2", "zero3", "big", "neg"})>>},
         d \in {<<DrawCell(n), DrawCell(n), DrawCell(n), DrawCell(n), DrawCell(n), DrawCell(n), DrawCell(n), DrawCell(n), DrawCell(n)>>},
         h \in {<<DrawHist(n), DrawHist(n), DrawHist(n), DrawHist(n), DrawHist(n), DrawHist(n)>>}} : TRUE
 RandomSeq == [n \in 1 .. NRandom |-> RandCase(n)]
 
-StaticCases == Singles \cup Pairs \cup Houses \cup Failing
+StaticCases == Singles \cup Pairs \cup Houses \cup Failing \cup Optioned \cup IdTables
 
 (* ======================================================================== *)
 (* GENERATING MACHINE + SPECIFICATION                                       *)
@@ -373,7 +424,7 @@ Init ==
   \/ StaticInit /\ \E c \in StaticCases : Start(c)
   \/ StaticInit /\ \E c \in {RandCase(n) : n \in 1 .. NRandom} : Start(c)
   \/ /\ BuildMax > 0 /\ phase = "build"
-     /\ inp \in {[ign |-> ign, nile |-> FALSE, hist |-> w, ch |-> NoChange] : ign \in BOOLEAN, w \in BuildWorlds}
+     /\ inp \in {[ign |-> ign, nile |-> FALSE, opt |-> NoOpt, idp |-> "base", hist |-> w, ch |-> NoChange] : ign \in BOOLEAN, w \in BuildWorlds}
      /\ pos = <<4, 1, 1>> /\ acts = << >> /\ res = NoRes
 
 \* add one element, cells in non-decreasing order so that every change is built exactly once
